@@ -538,6 +538,19 @@ static void do_op (char *op)
   else if (!strcmp (a[0], "tos")) { nice_agent_set_stream_tos (A[I (1)].agent, I (2), I (3)); T ("api %d set_stream_tos %d", I (1), I (2)); }
   else if (!strcmp (a[0], "name")) { gboolean r = nice_agent_set_stream_name (A[I (1)].agent, I (2), a[3]); T ("api %d set_stream_name %d %s =%d", I (1), I (2), a[3], r); }
   else if (!strcmp (a[0], "peerrfx")) { /* remote candidates containing a bogus extra one, set twice */ GSList *l = nice_agent_get_local_candidates (A[I (2)].agent, I (3), I (4)); int r = nice_agent_set_remote_candidates (A[I (1)].agent, I (3), I (4), l); r = nice_agent_set_remote_candidates (A[I (1)].agent, I (3), I (4), l); T ("api %d set_remote_candidates_twice %d %d =%d", I (1), I (3), I (4), r); g_slist_free_full (l, (GDestroyNotify) nice_candidate_free); }
+  else if (!strcmp (a[0], "pairs")) { /* pairs,i : the check lists with the priorities of both candidates of every pair (C15) */
+    int i = I (1); NiceAgent *ag = A[i].agent; if (ag) { agent_lock (ag); T ("pl %d ctl=%d", i, (int) ag->controlling_mode);
+      for (GSList *l = ag->streams; l; l = l->next) { NiceStream *st = l->data; fprintf (hc_out, " s%u[", st->id);
+        for (GSList *k = st->conncheck_list; k; k = k->next) { CandidateCheckPair *p = k->data;
+          fprintf (hc_out, "%u:%u:%u:%" G_GUINT64_FORMAT " ", p->component_id, p->local->priority, p->remote->priority, p->priority); }
+        fprintf (hc_out, "]"); }
+      agent_unlock (ag); } }
+  else if (!strcmp (a[0], "recand")) { /* recand,from,to,s,c,seed : the candidates of `from` signalled to `to` AGAIN, same type and address, new priorities (a re-offer) */
+    GSList *l = nice_agent_get_local_candidates (A[I (1)].agent, I (3), I (4)); guint64 x = (guint64) atol (a[5]) * 2654435761ULL + 12345; int k = 0;
+    for (GSList *j = l; j; j = j->next, k++) { NiceCandidate *c = j->data; x ^= x << 13; x ^= x >> 7; x ^= x << 17;
+      if ((x >> 8) % 3) c->priority = (guint32) ((x >> 20) % 0x7ffffffeu) + 1; }
+    int r = nice_agent_set_remote_candidates (A[I (2)].agent, I (3), I (4), l); T ("api %d set_remote_candidates_again %d %d n=%u =%d", I (2), I (3), I (4), g_slist_length (l), r);
+    g_slist_free_full (l, (GDestroyNotify) nice_candidate_free); }
   else if (!strcmp (a[0], "digest")) { for (int i = 0; i < nagents; i++) digest (i); }
   else if (!strcmp (a[0], "state")) { guint st = nice_agent_get_component_state (A[I (1)].agent, I (2), I (3)); T ("api %d get_state %d %d =%s", I (1), I (2), I (3), stname (st)); }
   else if (!strcmp (a[0], "selected")) { NiceCandidate *l = NULL, *r = NULL; gboolean ok = nice_agent_get_selected_pair (A[I (1)].agent, I (2), I (3), &l, &r); char x[80] = "-", y[80] = "-"; if (ok) { addr_s (&l->addr, x); addr_s (&r->addr, y); } T ("api %d get_selected_pair %d %d =%d %s %s", I (1), I (2), I (3), ok, x, y); }
